@@ -20,7 +20,7 @@ pub fn prop() -> Prop {
     Prop {
         id: "C05",
         level: "fault_enumeration",
-        rule: "fault cases, each run in a worker subprocess (RLIMIT_AS 4 GiB, per-case watchdog): (i) structure-aware mutants of honest GenAir proofs (value dictionaries on every encoded length, count, exponent, option byte, enum tag, frame-size byte, partition exponent, Merkle depth, modulus length, layer count; truncations, duplications, splices), 30 per proof, each decoded with Proof::from_bytes and verified under three acceptable-option modes (the original option set, minimum conjectured security 0, minimum proven security 0); (ii) the same style of mutation on components decoded alone: TraceInfo, ProofOptions, Context, Commitments (+parse), Queries (+parse), OodFrame (+parse), FriProof (+parse_layers / parse_remainder), BatchMerkleProof, digests, base and extension field elements; (iii) unstructured random byte strings. Oracle: every call returns Ok or Err; a panic, an abort (e.g. failed allocation), a killed worker or a hang (20x the per-case budget, run alone) is a violation keyed by its panic site. Non-trivial = the mutant decodes at least as far as the proof options; distinct = hash of (instance, spec, options, mutation list).",
+        rule: "fault cases, each run in a worker subprocess (RLIMIT_AS 4 GiB, per-case watchdog): (i) structure-aware mutants of honest GenAir proofs (value dictionaries on every encoded length, count, exponent, option byte, enum tag, frame-size byte, partition exponent, Merkle depth, modulus length, layer count; truncations, duplications, splices), 30 per proof, each decoded with Proof::from_bytes and verified under three acceptable-option modes (the original option set, minimum conjectured security 0, minimum proven security 0); (ii) the same style of mutation on components decoded alone: TraceInfo, ProofOptions, Context, Commitments (+parse), Queries (+parse), OodFrame (+parse), FriProof (+parse_layers / parse_remainder), BatchMerkleProof, digests, base and extension field elements; (iii) unstructured random byte strings. Oracle: every call returns Ok or Err; a panic, an abort (e.g. failed allocation), a killed worker or a hang (20x the per-case budget, run alone) is a violation keyed by its panic site. Non-trivial = the mutant decodes at least as far as the proof options; distinct = hash of (instance, spec, options, mutation list). Sub-check crafted_headers: the decoded honest proof gets one or two header-level edits that keep it well-formed (another valid ProofOptions value in one field, incl. query counts at and above the LDE domain size; another trace length / width / metadata; another commitment digest; another OOD trace value; other unique-query count or nonce) and its quotient OOD row is then RECOMPUTED from the AIR's public API so that the out-of-domain consistency check passes under the edited transcript: verification continues into FRI commitments, proof of work, query positions and Merkle openings with a header the prover never used; no outcome other than accept / error is allowed.",
         assumptions: vec![
             "release profile: 'panic' means a panic or abort of an optimized build without debug assertions",
             "GenAir::new is total: when the trace info / options carried by a hostile proof disagree with the public inputs it builds a degenerate but consistent AIR, so a remaining panic is attributable to library code",
@@ -28,10 +28,11 @@ pub fn prop() -> Prop {
         ],
         subs: vec![
             Sub::gen("proof_mutants", proof_mutants, 900, 6_000, 100_000).isolated(60_000, true),
+            Sub::gen("crafted_headers", crafted_headers, 400, 4_000, 80_000).isolated(60_000, true),
             Sub::gen("components", components, 200, 200_000, 5_000_000).isolated(10_000, true),
             Sub::gen("random_bytes", random_bytes, 80, 200_000, 5_000_000).isolated(10_000, true),
         ],
-        required: vec!["reached:channel", "reached:fri", "reached:options", "mode:option_set", "mode:min_conjectured", "mode:min_proven", "component:TraceInfo", "component:ProofOptions", "component:Context", "component:OodFrame", "component:Queries", "component:FriProof", "component:BatchMerkleProof", "component:Commitments", "component:element", "component:digest"],
+        required: vec!["crafted:reconciled", "crafted:reached:pow", "crafted:reached:merkle", "crafted:edit:options", "crafted:edit:trace_info", "crafted:edit:commitment", "crafted:queries_ge_lde", "reached:channel", "reached:fri", "reached:options", "mode:option_set", "mode:min_conjectured", "mode:min_proven", "component:TraceInfo", "component:ProofOptions", "component:Context", "component:OodFrame", "component:Queries", "component:FriProof", "component:BatchMerkleProof", "component:Commitments", "component:element", "component:digest"],
         required_thorough: vec![],
     }
 }
@@ -408,4 +409,197 @@ fn random_bytes(s: &mut Src, rec: &mut Rec) -> CaseResult {
             Err(Fail::new(key, format!("Proof::from_bytes panicked at {} on {} random bytes: {}", pn.location, n, pn.message)))
         },
     }
+}
+
+
+// CRAFTED HEADERS: WELL-FORMED, SELF-CONSISTENT PROOFS THE PROVER NEVER BUILT
+// ================================================================================================
+
+fn crafted_headers(s: &mut Src, rec: &mut Rec) -> CaseResult {
+    let idx = s.below(NUM_HASHERS);
+    with_hasher!(idx, X, crafted_x::<X>(s, rec))
+}
+
+fn crafted_x<X: HS>(s: &mut Src, rec: &mut Rec) -> CaseResult
+where
+    X::H: Send + Sync,
+{
+    use winter_air::proof::Context;
+    use winter_air::TraceInfo;
+
+    let name = X::NAME;
+    let mut cfg = GenCfg::small();
+    cfg.max_log_n = if X::is_rescue() { 4 } else { 6 };
+    cfg.max_width = 5;
+    let mut case = gen_case::<X>(s, &cfg, if X::is_rescue() { 1 << 7 } else { 1 << 10 }, rec);
+    if s.chance(3, 4) {
+        // no grinding: otherwise nearly every edited transcript ends at the proof-of-work check
+        case.opt.grinding = 0;
+        case.options = case.opt.build();
+    }
+    let spec = case.spec.clone();
+    let honest = match prove::<X>(&spec, &case.options, case.main.clone()) {
+        ProveOutcome::Proof(p) => *p,
+        _ => {
+            rec.class("prover_declined");
+            return Ok(());
+        },
+    };
+    let lde = honest.lde_domain_size();
+    let nmut = 12;
+    let mut descs: Vec<String> = vec![];
+    for _ in 0..nmut {
+        let mut p = honest.clone();
+        let mut opt = case.opt.clone();
+        let mut info = p.trace_info().clone();
+        let mut d = String::new();
+        let nedits = if s.chance(1, 4) { 2 } else { 1 };
+        for _ in 0..nedits {
+            match s.weighted(&[10, 4, 3, 2, 1, 1]) {
+                0 => {
+                    rec.class("crafted:edit:options");
+                    match s.below(8) {
+                        0 | 1 => {
+                            opt.queries = match s.below(5) {
+                                0 => 255,
+                                1 => lde.min(255),
+                                2 => (lde + 1).min(255),
+                                3 => lde.saturating_sub(1).clamp(1, 255),
+                                _ => s.range(1, 255) as usize,
+                            };
+                            if opt.queries >= lde {
+                                rec.class("crafted:queries_ge_lde");
+                            }
+                        },
+                        2 => opt.grinding = s.range(0, 32) as u32,
+                        3 => opt.blowup = 1 << s.range(1, 7),
+                        4 => opt.folding = 1 << s.range(1, 4),
+                        5 => opt.rem_degree = (1usize << s.range(0, 8)) - 1,
+                        6 => {
+                            opt.batch_c = s.below(3) as u8;
+                            opt.batch_d = s.below(3) as u8;
+                        },
+                        _ => {
+                            opt.partitions = s.range(1, 16) as usize;
+                            opt.hash_rate = s.range(1, 255) as usize;
+                        },
+                    }
+                    d.push_str(&format!("options := {}; ", opt.describe()));
+                },
+                1 => {
+                    rec.class("crafted:edit:trace_info");
+                    let (mw, aw, ar, len, meta) = (info.main_trace_width(), info.aux_segment_width(), info.get_num_aux_segment_rand_elements(), info.length(), info.meta().to_vec());
+                    let cand = match s.below(5) {
+                        0 => (mw, aw, ar, (len * 2).min(1 << 20), meta),
+                        1 => (mw, aw, ar, (len / 2).max(8), meta),
+                        2 => ((mw + 1).min(255), aw, ar, len, meta),
+                        3 => (mw.saturating_sub(1).max(1), aw, ar, len, meta),
+                        _ => {
+                            let ml = s.pick_copy(&[0usize, 1, 7, 8, 9]);
+                            (mw, aw, ar, len, s.bytes(ml))
+                        },
+                    };
+                    if let Ok(ti) = catch(|| TraceInfo::new_multi_segment(cand.0, cand.1, cand.2, cand.3, cand.4.clone())) {
+                        info = ti;
+                    }
+                    d.push_str(&format!("trace info := ({}, {}, {}, {}, {} meta bytes); ", cand.0, cand.1, cand.2, cand.3, cand.4.len()));
+                },
+                2 => {
+                    rec.class("crafted:edit:commitment");
+                    // flip one byte inside the commitments blob (a digest changes, the layout does not)
+                    let mut b = p.commitments.to_bytes();
+                    if b.len() > 2 {
+                        let i = 2 + s.below(b.len() as u64 - 2) as usize;
+                        b[i] ^= 1 << s.below(8);
+                        if let Ok(c) = winter_air::proof::Commitments::read_from_bytes(&b) {
+                            p.commitments = c;
+                        }
+                        d.push_str(&format!("commitments byte {i} flipped; "));
+                    }
+                },
+                3 => {
+                    let mut b = p.ood_frame.to_bytes();
+                    if b.len() > 4 {
+                        let i = 3 + s.below(b.len() as u64 - 3) as usize;
+                        b[i] ^= 1 << s.below(8);
+                        if let Ok(f) = winter_air::proof::OodFrame::read_from_bytes(&b) {
+                            p.ood_frame = f;
+                        }
+                        d.push_str(&format!("ood frame byte {i} flipped; "));
+                    }
+                },
+                4 => {
+                    p.num_unique_queries = s.range(1, 255) as u8;
+                    d.push_str(&format!("num_unique_queries := {}; ", p.num_unique_queries));
+                },
+                _ => {
+                    p.pow_nonce = s.u64();
+                    d.push_str("nonce replaced; ");
+                },
+            }
+        }
+        let Ok(new_options) = catch(|| opt.build()) else { continue };
+        let nc = p.context.num_constraints();
+        let Ok(ctx) = catch(|| Context::new::<<X::S as FSpec>::B>(info.clone(), new_options.clone(), nc)) else { continue };
+        p.context = ctx;
+        let rc = catch(|| match opt.ext {
+            1 => crate::craft::reconcile_ood::<X, <X::S as FSpec>::B>(&mut p, &spec),
+            2 => crate::craft::reconcile_ood::<X, Q<<X::S as FSpec>::B>>(&mut p, &spec),
+            _ => {
+                if <X::S as FSpec>::CUBE.is_some() {
+                    crate::craft::reconcile_ood::<X, C<<X::S as FSpec>::B>>(&mut p, &spec)
+                } else {
+                    Err("no cubic extension".into())
+                }
+            },
+        });
+        match rc {
+            Ok(Ok(())) => rec.class("crafted:reconciled"),
+            Ok(Err(_)) => rec.class("crafted:reconcile_failed"),
+            // the AIR's own methods panicking on a header they cannot represent is not the verifier's doing
+            Err(_) => rec.class("crafted:reconcile_panicked"),
+        }
+        if descs.len() < 3 {
+            descs.push(d.clone());
+        }
+        // through the wire format, as a verifier would receive it
+        let bytes = p.to_bytes();
+        let decoded = match catch(|| Proof::from_bytes(&bytes)) {
+            Ok(Ok(q)) => q,
+            Ok(Err(_)) => {
+                rec.class("crafted:reached:decode_error");
+                continue;
+            },
+            Err(pn) => {
+                let key = format!("{}:from_bytes", pn.key());
+                if rec.tolerate_known(&key) {
+                    continue;
+                }
+                return Err(Fail::new(key, format!("Proof::from_bytes panicked at {}: {} (crafted: {d}; {name})", pn.location, pn.message)));
+            },
+        };
+        rec.nontrivial();
+        let mode = s.below(3);
+        let (acc, mname) = match mode {
+            0 => (AcceptableOptions::OptionSet(vec![new_options.clone()]), "option_set"),
+            1 => (AcceptableOptions::MinConjecturedSecurity(0), "min_conjectured"),
+            _ => (AcceptableOptions::MinProvenSecurity(0), "min_proven"),
+        };
+        match verify_with::<X>(decoded, &spec, &acc) {
+            VerifyOutcome::Accept => rec.class("crafted:reached:accept"),
+            VerifyOutcome::Reject(e) => rec.class(&format!("crafted:reached:{}", stage_of(&e))),
+            VerifyOutcome::Panic(pn) => {
+                let key = format!("{}:verify", pn.key());
+                if rec.tolerate_known(&key) {
+                    continue;
+                }
+                rec.redescribe(|| json!({"instance": name, "crafted": d, "mode": mname, "original_options": case.opt.describe()}));
+                return Err(Fail::new(key, format!("verify panicked at {}: {} (crafted proof: {d}acceptable options mode {mname}; {name}; original options {}; LDE domain {lde})", pn.location, pn.message, case.opt.describe())));
+            },
+        }
+    }
+    rec.weight = nmut;
+    rec.set_fp(&(name, spec.fingerprint(), format!("{:?}", case.opt), &descs));
+    rec.describe(|| json!({"instance": name, "spec": spec.describe(), "options": case.opt.describe(), "first_crafted": descs, "crafted": nmut}));
+    Ok(())
 }
